@@ -16,7 +16,9 @@ DRIVERS = ["drv_ls", "drv_netdecision"]
 RULE = ("(a) solver level: singular problems (A,b,C,S) from tools/lib/gen_ls.py x {env,chol,gso,svd}, queried the way "
         "LocalNetwork::null_space does (unknowns() — refused or not —, then defect(), lindep(1..n)); (b) networks with a "
         "planted deficiency {too few constrained coordinates, constraints that do not span the defect, disconnected free "
-        "part, point hanging on a single distance / direction, sound} in 2D (distances +- directions) and 1D (levelling) x "
+        "part, point hanging on a single distance / direction, floating component + fixed-datum rest + approximate "
+        "coordinates off by 0.1-0.4 m (points removed, then the rest is linearised and solved again by the same solver "
+        "object), sound} in 2D (distances +- directions) and 1D (levelling) x "
         "datum {fixed, free-sufficient, free-insufficient, free-all} x 4 algorithms through gama-local; exact rational "
         "Jacobian (coordinates with 3 decimals, rows scaled by d resp. d^2) for the rank statements; (c) decision-layer "
         "scripts through the real null_space/GeneralParameters with a scripted solver vs the Lean model NetDecision. "
@@ -28,7 +30,10 @@ LEVEL_TEXT = ("Lean 4 theorems about the executable models: per solver (Props/C2
               "each step switches a coordinate group off and records it, a verdict 'adjusted' is only given after the solver "
               "answered on the final configuration with at least 'defect' constrained coordinates, and — a consequence "
               "proved on the faithful model — when every solver refuses uniformly the diagnosis 'network can not be "
-              "adjusted' is unreachable (points are stripped instead: finding F7). Tied to the C++ by correspondence of "
+              "adjusted' is unreachable (points are stripped instead: finding F7); for the gso solver object the "
+              "second-stage error counter is state with reset / increment / read sites regenerated from icgs.cpp, icgs.h, "
+              "adj_gso.h, and after ANY history including refused solves a system is refused iff its own subset does not "
+              "resolve its own defect (Props/C20/GsoSticky.lean). Tied to the C++ by correspondence of "
               "the decision model against the real null_space/GeneralParameters driven by a scripted solver, by "
               "differential runs of gama-local over the four algorithms on planted deficiencies, and by an exact rational "
               "rank oracle on what gama-local removed / reported.")
@@ -259,8 +264,36 @@ def plant_1d(rng):
     return net, {"dim": 1, "plant": plant, "datum": datum, "kinds": "dh"}
 
 
+def plant_floating_poor_approx(rng):
+    """round 5 (seeded/C20-seed3): fixed datum + determined rest + a FLOATING component without any constrained
+    coordinate (points tied only by mutual distances / directions), and approximate coordinates of the determined points
+    off by 0.1 .. 0.4 m, so that after `null_space()` removed the floating points the rest (defect 0 now) is linearised
+    and solved AGAIN by the same solver object.  The first regularisation fails (gso: error counter set); whatever
+    state that leaves in the solver must not reach the later full-rank systems."""
+    kinds = rng.choice([("distance",), ("distance",), ("direction", "distance")])
+    nmain = rng.randint(4, 6)
+    main = [f"M{k + 1}" for k in range(nmain)]
+    pts = grid_points(rng, main)
+    obs = observe(rng, pts, main, kinds, density=0.95)
+    extra = [f"Q{k + 1}" for k in range(rng.randint(2, 3))]
+    pts.update(grid_points(rng, extra, origin=(2000.0, 1000.0), scale=300.0))
+    obs += observe(rng, pts, extra, kinds, density=1.0)
+    for pid in main[:2]:
+        pts[pid]["status"] = "fix"
+    shift = rng.choice([0.1, 0.2, 0.3, 0.4])
+    for pid in main[2:]:                       # observations were computed from the true positions above
+        pts[pid]["x"] = r3(pts[pid]["x"] + rng.uniform(-shift, shift))
+        pts[pid]["y"] = r3(pts[pid]["y"] + rng.uniform(-shift, shift))
+    net = {"dim": 2, "points": pts, "obs": obs,
+           "params": {"sigma-apr": 10, "conf-pr": 0.95, "tol-abs": 1000, "sigma-act": "aposteriori"}}
+    return net, {"dim": 2, "plant": "floating-poor-approx", "datum": "fixed", "kinds": "+".join(kinds), "shift": shift}
+
+
 def gen_planted(rng):
-    return plant_1d(rng) if rng.random() < 0.3 else plant_2d(rng)
+    r = rng.random()
+    if r < 0.15:
+        return plant_floating_poor_approx(rng)
+    return plant_1d(rng) if r < 0.4 else plant_2d(rng)
 
 
 # ---- exact Jacobian ---------------------------------------------------------------------------
@@ -408,6 +441,12 @@ def check_planted(ctx, corr, n):
                 corr.count(f"net_{k}_{tags[k]}")
         if c02.text_removed_points(runs["envelope"]["text"] + runs["envelope"]["out"]):
             corr.count("net_with_removed_points")
+        if tags.get("plant") == "floating-poor-approx":
+            # the scenario needs BOTH: points removed by null_space() and a second linearisation of the rest
+            m_it = re.search(r"<linearization-iterations>\s*(\d+)", runs["envelope"]["xml"] or "")
+            it = int(m_it.group(1)) if m_it else 0
+            if it >= 1 and c02.text_removed_points(runs["envelope"]["text"] + runs["envelope"]["out"]):
+                corr.count("net_floating_removed_then_relinearised")
         for what, site, detail in c02.net_oracle(runs):
             corr.fail(what, dict(rep, oracle="cross-algorithm"), site, detail)
         for a in GALGS:
@@ -425,6 +464,14 @@ def check_planted(ctx, corr, n):
     tot = corr.stats.get("net_cases", 0)
     if tot and corr.stats.get("net_truly_ill_posed", 0) < 0.4 * tot:
         corr.inconclusive.append("fewer than 40% truly ill-posed networks")
+    if n >= 30 and corr.stats.get("net_floating_removed_then_relinearised", 0) < 2:
+        corr.inconclusive.append("fewer than 2 networks with a removed floating component AND a second linearisation of the rest")
+
+
+def translate(ctx):
+    """round 5: lean/Gama/Gen/IcgsError.lean (reset / increment / read sites of the gso error counter; Props/C20/GsoSticky.lean)"""
+    from props import c04_full
+    c04_full.translate_icgs(ctx)
 
 
 def correspond(ctx, corr):
